@@ -1812,3 +1812,215 @@ func c13EverOwnedOnlyBy(model map[*UdpEndpoint]*c13ModelEP, k bpfTuplesKey, gen 
 	}
 	return true
 }
+
+// c13GenerationsConcurrent: the hand-over of a surviving endpoint to the next generation
+// (GetOrCreate with the new generation's owner and drain tracker -> adoptGeneration) raced with
+// other first packets of the new generation adopting the same endpoint, with the per-packet
+// TrackUdpConnStateTuplePair and with the endpoint's close. Judged at quiescent points only:
+// tracker reference counts of both generations, kernel entries and drain tickets must be what the
+// set of live endpoints (and who owns them now) implies, and everything must be gone at the end.
+func c13GenerationsConcurrent(m *vk.Monitor) {
+	rng := vk.NewRand(0xC13AC)
+	reported := map[string]bool{}
+	rounds := vk.Scale(400, 8000)
+	dsts := []netip.AddrPort{netip.MustParseAddrPort("198.51.100.9:53"), netip.MustParseAddrPort("198.51.100.10:443"),
+		netip.MustParseAddrPort("198.51.100.11:4433"), netip.MustParseAddrPort("198.51.100.12:53")}
+	for round := 0; round < rounds && m.Violations() < 5; round++ {
+		shared := rng.IntN(4) == 0
+		gens := c13NewGens(shared)
+		h := c13NewEP(10 * time.Minute)
+		h.useGen, h.cores, h.dts = true, gens.cores, gens.dts
+		k := rng.IntN(len(h.keys))
+		src := h.keys[k].Src
+		var hist []string
+		var vs []c13Verdict
+		pair := func(d netip.AddrPort) (bpfTuplesKey, bpfTuplesKey) {
+			return bpfTuplesKeyFromAddrPorts(src, d, uint8(syscall.IPPROTO_UDP)), bpfTuplesKeyFromAddrPorts(d, src, uint8(syscall.IPPROTO_UDP))
+		}
+		c0 := h.goc(k, 0, "gen0")
+		if c0.Err != "" || c0.ue == nil {
+			gens.close()
+			continue
+		}
+		ue := c0.ue
+		tuples := map[bpfTuplesKey]bool{}
+		n0 := 1 + rng.IntN(2)
+		for i := 0; i < n0; i++ {
+			f, r := pair(dsts[i])
+			gens.kernelPut(0, f)
+			gens.kernelPut(0, r)
+			ue.TrackUdpConnStateTuplePair(src, dsts[i])
+			tuples[f], tuples[r] = true, true
+		}
+		hist = append(hist, fmt.Sprintf("gen0: GetOrCreate(key%d) -> conn%d, %d tracked pair(s)", k, c0.Conn, n0))
+		adopters := 1 + rng.IntN(4)
+		withTrack := rng.IntN(2) == 0
+		closeHow := rng.IntN(4) // 0,1: none; 2: pool.Remove; 3: failing write
+		// entries of pairs tracked during the race: the owner at that instant is either generation
+		trackDst := dsts[2+rng.IntN(2)]
+		if withTrack {
+			f, r := pair(trackDst)
+			for g := 0; g < 2; g++ {
+				gens.kernelPut(g, f)
+				gens.kernelPut(g, r)
+			}
+		}
+		for t := range tuples {
+			gens.kernelPut(1, t) // the new generation's datapath knows the flows it takes over
+		}
+		start := make(chan struct{})
+		var wg sync.WaitGroup
+		adopted := make([]*c13Call, adopters)
+		for i := 0; i < adopters; i++ {
+			wg.Add(1)
+			go func(i int) {
+				defer wg.Done()
+				<-start
+				adopted[i] = h.goc(k, 1, fmt.Sprintf("gen1-%d", i))
+			}(i)
+		}
+		if withTrack {
+			wg.Add(1)
+			go func() {
+				defer wg.Done()
+				<-start
+				if round%2 == 0 {
+					time.Sleep(time.Microsecond)
+				}
+				ue.TrackUdpConnStateTuplePair(src, trackDst)
+			}()
+		}
+		if closeHow >= 2 {
+			wg.Add(1)
+			go func() {
+				defer wg.Done()
+				<-start
+				if closeHow == 2 {
+					_ = h.pool.Remove(h.keys[k], ue)
+				} else {
+					c0.conn.failNow.Store(true)
+					_ = h.write(c0)
+				}
+			}()
+		}
+		close(start)
+		wg.Wait()
+		hist = append(hist, fmt.Sprintf("race: %d x GetOrCreate(key%d, gen1) || track=%v || close=%d", adopters, k, withTrack, closeHow))
+		m.Eval(1)
+		m.Count("c_conc_rounds", 1)
+		// ---- quiescent point 1
+		closed := c13ConnOf(ue).closes.Load() > 0
+		if closed {
+			m.Count("c_conc_closed_during_handover", 1)
+		}
+		if withTrack {
+			ue.udpConnStateMu.Lock()
+			f, _ := pair(trackDst)
+			_, tracked := ue.udpConnStateTuples[f]
+			ue.udpConnStateMu.Unlock()
+			if tracked || !closed {
+				// Track before the close (or no close at all): the pair belongs to the endpoint
+				if tracked {
+					f, r := pair(trackDst)
+					tuples[f], tuples[r] = true, true
+					m.Count("c_conc_tracked_during_handover", 1)
+				}
+			}
+		}
+		owner := 0
+		others := map[*UdpEndpoint]bool{}
+		for _, c := range adopted {
+			if c == nil || c.ue == nil || c.Err != "" {
+				continue
+			}
+			if c.ue == ue {
+				owner = 1
+			} else {
+				others[c.ue] = true // created afresh in gen1 after the close
+			}
+		}
+		if owner == 1 && !closed {
+			m.Count("c_conc_adopted_alive", 1)
+		}
+		check := func(after string, live bool, owner int) bool {
+			for gi := 0; gi < 2; gi++ {
+				for t := range tuples {
+					refs, del := gens.trackerRefs(gi, t)
+					want := 0
+					if live && (gens.trk[gi] == gens.trk[owner]) {
+						want = 1
+					}
+					if refs != want || del {
+						vs = append(vs, c13Verdict{"tuple/tracker-refcount-mismatch",
+							fmt.Sprintf("after %s: generation %d tracker holds %d reference(s) (deleting=%v) for a tuple that %d live endpoint(s) of that tracker retain", after, gi, refs, del, want),
+							map[string]any{"history": hist, "shared_tracker": shared, "concurrent": true}})
+						return false
+					}
+				}
+			}
+			liveDT := [2]int{}
+			if live {
+				liveDT[owner]++
+			}
+			for o := range others {
+				if c13ConnOf(o).closes.Load() == 0 {
+					liveDT[1]++
+				}
+			}
+			for gi := 0; gi < 2; gi++ {
+				if n := gens.dts[gi].Count(); n != liveDT[gi] {
+					vs = append(vs, c13Verdict{"drain/ticket-count-mismatch",
+						fmt.Sprintf("after %s: generation %d drain tracker counts %d session(s), %d live endpoint(s) belong to it", after, gi, n, liveDT[gi]),
+						map[string]any{"history": hist, "concurrent": true}})
+					return false
+				}
+			}
+			if gens.haveMap {
+				for t := range tuples {
+					has, _ := gens.kernelHas(owner, t)
+					if live && !has {
+						vs = append(vs, c13Verdict{"tuple/kernel-entry-removed-while-owned",
+							fmt.Sprintf("after %s: kernel flow entry is gone although a live endpoint still owns it", after),
+							map[string]any{"history": hist, "shared_tracker": shared, "concurrent": true}})
+						return false
+					}
+					if !live && has {
+						vs = append(vs, c13Verdict{"tuple/kernel-entry-not-removed",
+							fmt.Sprintf("after %s: kernel flow entry still present in the last owner's map although its last owner went away", after),
+							map[string]any{"history": hist, "shared_tracker": shared, "concurrent": true}})
+						return false
+					}
+				}
+			}
+			return true
+		}
+		okc := true
+		if closed {
+			// who owned it when it closed is not observable from outside: both trackers must be empty of it,
+			// and the entries are judged in the map of the generation that is known to have owned them last
+			lastOwner := owner
+			okc = check("the hand-over race (endpoint closed in it)", false, lastOwner)
+		} else {
+			okc = check("the hand-over race", true, owner)
+		}
+		// ---- everything goes away
+		fin, inc := h.finish()
+		if inc == "" && okc {
+			vs = append(vs, fin...)
+			if !closed {
+				check("pool.Close()", false, owner)
+			}
+			for gi := 0; gi < 2; gi++ {
+				if n := gens.trackerLen(gi); n != 0 {
+					vs = append(vs, c13Verdict{"tuple/tracker-entries-left-after-close",
+						fmt.Sprintf("generation %d tracker still holds %d tuple entr(ies) after every endpoint was closed", gi, n),
+						map[string]any{"history": hist, "shared_tracker": shared, "concurrent": true}})
+					break
+				}
+			}
+		}
+		gens.close()
+		m.Distinct(fmt.Sprintf("c-conc|shared%v|a%d|t%v|c%d|closed%v|owner%d|n%d", shared, adopters, withTrack, closeHow, closed, owner, len(tuples)))
+		c13Report(m, reported, "conc/", c13Dedup(vs), h, map[string]any{"round": round, "kind": "generations-concurrent", "shared_tracker": shared, "history": hist})
+	}
+}
